@@ -16,11 +16,12 @@ PInit == sc = [kind |-> "none"]
 RelaySeqs == UNION {[1..n -> RelayBeh] : n \in 0..MaxRelays}
 
 PNext == /\ sc.kind = "none"
-         /\ \E d \in Times, rs \in RelaySeqs, tcp \in {"off", "fail", "ok"}, fa \in {Never, CHOOSE g \in Grid : TRUE},
-               fn \in {Never, CHOOSE g \in Grid : TRUE}, dup \in BOOLEAN, s0 \in Scores :
+         /\ \E d \in Times, rs \in RelaySeqs, tcp \in {"off", "fail", "ok", "late"}, fa \in {Never, CHOOSE g \in Grid : TRUE},
+               fn \in {Never, CHOOSE g \in Grid : TRUE}, dup \in BOOLEAN, s0 \in Scores, se \in BOOLEAN :
               LET s == [direct |-> d, relays |-> rs, tcp |-> tcp, foreignAck |-> fa, foreignNack |-> fn, dupAck |-> dup,
-                        score0 |-> s0]
+                        score0 |-> s0, sendErr |-> se]
               IN /\ (dup => d # Never)
+                 /\ (se => (d = Never /\ rs = <<>> /\ tcp = "off" /\ fa = Never /\ fn = Never))
                  /\ \A i \in DOMAIN rs : /\ (rs[i].nack <=> (rs[i].cap /\ (rs[i].ackAt = Never \/ rs[i].ackAt > 2 * PT)))
                                           /\ (rs[i].ackAt = Never \/ rs[i].ackAt > PT)
                  /\ sc' = [kind |-> "probe", s |-> s, out |-> Outcome(s)]
@@ -33,7 +34,7 @@ PSpec == PInit /\ [][PNext \/ RNext]_sc
 C19_OneNack == sc.kind = "relay" => (sc.out.nacks \in {0, 1} /\ (sc.out.nacks = 1 <=> (sc.r.wantNack /\ sc.out.relayedAcks = 0)))
 
 \* C19 clauses on the outcome function
-C19_Answered == sc.kind = "probe" =>
+C19_Answered == sc.kind = "probe" /\ ~sc.s.sendErr =>
    (sc.out.answered <=> (InTime(sc.s.direct)
                           \/ (Escalated(sc.s) /\ \E i \in DOMAIN sc.s.relays : InTime(sc.s.relays[i].ackAt))
                           \/ (Escalated(sc.s) /\ sc.s.tcp = "ok")))
